@@ -19,6 +19,9 @@ func nameMatches(full, pat string) bool {
 	if full == pat {
 		return true
 	}
+	if i := strings.Index(full, " aka "); i >= 0 {
+		return nameMatches(full[:i], pat) || nameMatches(full[i+5:], pat)
+	}
 	if strings.HasSuffix(full, pat) && len(full) > len(pat) {
 		c := full[len(full)-len(pat)-1]
 		return c == '.' || c == '/' || c == '(' || c == ')' || c == '*' || c == ' '
@@ -72,6 +75,11 @@ func (ex *Executor) staticCalleeName(cc *ssa.CallCommon) string {
 	}
 	if b, ok := cc.Value.(*ssa.Builtin); ok {
 		return "builtin " + b.Name()
+	}
+	if n, ok := cc.Value.Type().(*types.Named); ok {
+		// a value of a named function type can also be observed under the name of its type, whatever variable,
+		// slice element or field it is read from
+		return "dynamic " + dynName(cc.Value) + " aka " + n.Obj().Name()
 	}
 	return "dynamic " + dynName(cc.Value)
 }
@@ -538,7 +546,7 @@ func (ex *Executor) havocResults(st *State, sig *types.Signature, label string) 
 
 // applyContract: modular call. Checks requires, havocs the modifies set, assumes ensures.
 func (ex *Executor) applyContract(st *State, fr *Frame, spec *FuncSpec, fn *ssa.Function, sig *types.Signature, args []Val, ins ssa.Instruction, name string, ord int) ([]Val, bool) {
-	env := &SpecEnv{ex: ex, st: st, vars: map[string]Val{}, pkgRel: spec.Pkg, fr: nil}
+	env := &SpecEnv{ex: ex, st: st, vars: map[string]Val{}, pkgRel: spec.Pkg, fr: nil, calleeFn: fn}
 	// parameter names
 	var pnames []string
 	if fn != nil && len(fn.Params) == len(args) {
@@ -592,7 +600,7 @@ func (ex *Executor) applyContract(st *State, fr *Frame, spec *FuncSpec, fn *ssa.
 	for i, c := range spec.Requires {
 		v, err := ex.evalSpec(c.Expr, env)
 		if err != nil {
-			ex.errf("%s: requires of %s %q: %v", ex.unitKey, spec.Key, c.Text, err)
+			ex.calleeContractErr(spec, fn, "requires", c.Text, err)
 			return nil, false
 		}
 		ex.addObl(st, "pre", fmt.Sprintf("%s#%d: %s", name, ord, clauseLabel(c, i)), v.T, "precondition of "+spec.Key+": "+c.Text, c.Tags)
@@ -638,7 +646,7 @@ func (ex *Executor) applyContract(st *State, fr *Frame, spec *FuncSpec, fn *ssa.
 	} else {
 		res = ex.havocResults(st, sig, "ret."+sanitize(name))
 	}
-	env2 := &SpecEnv{ex: ex, st: st, vars: env.vars, pkgRel: spec.Pkg, oldHeap: old, oldAlloc: oldAlloc, assuming: true}
+	env2 := &SpecEnv{ex: ex, st: st, vars: env.vars, pkgRel: spec.Pkg, oldHeap: old, oldAlloc: oldAlloc, assuming: true, calleeFn: fn}
 	for i, r := range res {
 		env2.vars[fmt.Sprintf("ret%d", i)] = r
 		if i == 0 {
@@ -664,7 +672,7 @@ func (ex *Executor) applyContract(st *State, fr *Frame, spec *FuncSpec, fn *ssa.
 				ex.Notes[fmt.Sprintf("ensures of %s about a closure's captures is not used at call sites", spec.Key)] = true
 				continue
 			}
-			ex.errf("%s: ensures of %s %q: %v", ex.unitKey, spec.Key, c.Text, err)
+			ex.calleeContractErr(spec, fn, "ensures", c.Text, err)
 			return nil, false
 		}
 		st.assume(v.T)
@@ -1215,4 +1223,16 @@ func freshIn(a ssa.Value, blocks map[*ssa.BasicBlock]bool) bool {
 		}
 	}
 	return false
+}
+
+// calleeContractErr: a callee's contract cannot be evaluated at a call site. If the reason is a name the callee no
+// longer has (renamed parameter or local), the callee's contract lost its anchor and so did everything this unit would
+// have learnt from it: this unit is undecided as well, not violated.
+func (ex *Executor) calleeContractErr(spec *FuncSpec, fn *ssa.Function, kind, text string, err error) {
+	if nm := unknownIdent(err.Error()); nm != "" && fn != nil && !hasSourceName(fn, nm) {
+		ex.anchorLost = true
+		ex.errf("anchor-missing %s: %s of %s %q: %v (the callee no longer has that name)", ex.unitKey, kind, spec.Key, text, err)
+		return
+	}
+	ex.errf("%s: %s of %s %q: %v", ex.unitKey, kind, spec.Key, text, err)
 }
